@@ -156,6 +156,13 @@ def check_case(case):
         out = [json.loads(l) for l in common.run_driver_persistent("summary", lines)]
         compare_tables("uptake", frame_rows(ms.uptake_flux, has_fva), out[0]["producing"], fails, False)
         compare_tables("secretion", frame_rows(ms.secretion_flux, has_fva), out[0]["consuming"], fails, False)
+        def frame_of(label, summary, want):
+            # to_frame(): the whole table (same rows, same scaled flux and range) as the two sides together
+            try:
+                compare_tables(label, frame_rows(summary.to_frame(), has_fva), want, fails, False)
+            except Exception as e:
+                fails.append(f"{label}: {type(e).__name__}: {e} (columns {list(summary.to_frame().columns)})")
+        frame_of("to_frame[model]", ms, out[0]["producing"] + out[0]["consuming"])
         # direct oracle, model summary
         listed = list(ms.uptake_flux["reaction"]) + list(ms.secretion_flux["reaction"])
         if sorted(listed) != sorted(r.id for r in boundary):
@@ -166,6 +173,7 @@ def check_case(case):
         for (met, s, rws), o in zip(msums, out[1:]):
             compare_tables(f"producing[{met.id}]", frame_rows(s.producing_flux, has_fva), o["producing"], fails, True)
             compare_tables(f"consuming[{met.id}]", frame_rows(s.consuming_flux, has_fva), o["consuming"], fails, True)
+            frame_of(f"to_frame[{met.id}]", s, o["producing"] + o["consuming"])
             both = list(s.producing_flux["reaction"]) + list(s.consuming_flux["reaction"])
             if sorted(both) != sorted(r.id for r in met.reactions):
                 fails.append(f"reactions of {met.id} are not each listed exactly once")
